@@ -67,7 +67,9 @@ Inductive mout :=
 | Bye (c : N)                            (* NameOwnerChanged (c's unique name -> "") *)
 | Noc (name : bytes) (old new : N)       (* NameOwnerChanged of a well-known name; 0 = nobody *)
 | NoReply (to : N) (serial : N)          (* error NoReply sent to the caller of a pending call whose callee went away *)
-| Refused (c : N) (serial : N).          (* error LimitsExceeded in reply to c's call with that serial *)
+| Refused (c : N) (serial : N)           (* error LimitsExceeded in reply to c's call with that serial *)
+| ActFail (c : N) (serial : N)           (* the activation c's message with that serial waited for has failed: error reply *)
+| ActOk (c : N) (serial : N).            (* StartServiceByName answered DBUS_START_REPLY_SUCCESS *)
 
 Definition MON : N := 0.            (* recipient "every monitor"; connection ids of the run start at 1 *)
 
@@ -96,21 +98,51 @@ Record mstate := mkM {
   m_completed : list N;
   m_maxuser : N;
   m_maxrules : N;
-  m_baseusers : N
+  m_baseusers : N;
+  m_clock : N;                                         (* ms since the start of the history *)
+  m_acts : list (bytes * N * list (N * N * N))         (* BusActivation.pending_activations: (name, time at which it fails unless the name
+                                                          is acquired before, entries (requester, serial, kind)), kind 0 = StartServiceByName,
+                                                          1 = auto-started message that expects no reply, 2 = auto-started call that does *)
 }.
 
 Definition mem (c : N) (l : list N) : bool := existsb (N.eqb c) l.
 Definition unique_name (n : N) : bytes := S_unique_prefix ++ dec_of_N n.
 Definition not_c (c : N) (x : N) : bool := negb (x =? c).
 
-Definition set_names (k : mstate) names acq := mkM (m_next k) (m_uniq k) names acq (m_rules k) (m_pend k) (m_mons k) (m_completed k) (m_maxuser k) (m_maxrules k) (m_baseusers k).
-Definition set_rules (k : mstate) rules := mkM (m_next k) (m_uniq k) (m_names k) (m_acq k) rules (m_pend k) (m_mons k) (m_completed k) (m_maxuser k) (m_maxrules k) (m_baseusers k).
-Definition set_pend (k : mstate) pend := mkM (m_next k) (m_uniq k) (m_names k) (m_acq k) (m_rules k) pend (m_mons k) (m_completed k) (m_maxuser k) (m_maxrules k) (m_baseusers k).
-Definition set_mons (k : mstate) mons := mkM (m_next k) (m_uniq k) (m_names k) (m_acq k) (m_rules k) (m_pend k) mons (m_completed k) (m_maxuser k) (m_maxrules k) (m_baseusers k).
-Definition set_uniq (k : mstate) next uniq := mkM next uniq (m_names k) (m_acq k) (m_rules k) (m_pend k) (m_mons k) (m_completed k) (m_maxuser k) (m_maxrules k) (m_baseusers k).
-Definition set_completed (k : mstate) l := mkM (m_next k) (m_uniq k) (m_names k) (m_acq k) (m_rules k) (m_pend k) (m_mons k) l (m_maxuser k) (m_maxrules k) (m_baseusers k).
+Definition set_names (k : mstate) names acq := mkM (m_next k) (m_uniq k) names acq (m_rules k) (m_pend k) (m_mons k) (m_completed k) (m_maxuser k) (m_maxrules k) (m_baseusers k) (m_clock k) (m_acts k).
+Definition set_rules (k : mstate) rules := mkM (m_next k) (m_uniq k) (m_names k) (m_acq k) rules (m_pend k) (m_mons k) (m_completed k) (m_maxuser k) (m_maxrules k) (m_baseusers k) (m_clock k) (m_acts k).
+Definition set_pend (k : mstate) pend := mkM (m_next k) (m_uniq k) (m_names k) (m_acq k) (m_rules k) pend (m_mons k) (m_completed k) (m_maxuser k) (m_maxrules k) (m_baseusers k) (m_clock k) (m_acts k).
+Definition set_mons (k : mstate) mons := mkM (m_next k) (m_uniq k) (m_names k) (m_acq k) (m_rules k) (m_pend k) mons (m_completed k) (m_maxuser k) (m_maxrules k) (m_baseusers k) (m_clock k) (m_acts k).
+Definition set_uniq (k : mstate) next uniq := mkM next uniq (m_names k) (m_acq k) (m_rules k) (m_pend k) (m_mons k) (m_completed k) (m_maxuser k) (m_maxrules k) (m_baseusers k) (m_clock k) (m_acts k).
+Definition set_completed (k : mstate) l := mkM (m_next k) (m_uniq k) (m_names k) (m_acq k) (m_rules k) (m_pend k) (m_mons k) l (m_maxuser k) (m_maxrules k) (m_baseusers k) (m_clock k) (m_acts k).
 
 (* n_completed = get_connections_for_uid (the uid of the run) *)
+Definition set_acts (k : mstate) clock acts := mkM (m_next k) (m_uniq k) (m_names k) (m_acq k) (m_rules k) (m_pend k) (m_mons k) (m_completed k) (m_maxuser k) (m_maxrules k) (m_baseusers k) clock acts.
+
+(* the activatable services of the correspondence run's configuration (<servicedir> with two .service files, see
+   harness/py/robust_run.py): name -> ms after which the activation fails unless somebody acquires the name first
+   (c10.act.fail: Exec exits 1 after 300 ms; c10.act.hang: Exec never claims the name, <limit name="service_start_timeout"> 900) *)
+Definition S_act_fail : bytes := [99; 49; 48; 46; 97; 99; 116; 46; 102; 97; 105; 108].
+Definition S_act_hang : bytes := [99; 49; 48; 46; 97; 99; 116; 46; 104; 97; 110; 103].
+Definition services : list (bytes * N) := [(S_act_fail, 300); (S_act_hang, 900)].
+Definition service_delay (name : bytes) : option N :=
+  match find (fun p => bytes_eqb name (fst p)) services with Some (_, d) => Some d | None => None end.
+
+(* bus_activation_activate_service: join the pending activation of that name, or start one *)
+Fixpoint add_waiter (acts : list (bytes * N * list (N * N * N))) (name : bytes) (fail_at : N) (e : N * N * N) : list (bytes * N * list (N * N * N)) :=
+  match acts with
+  | [] => [(name, fail_at, [e])]
+  | (n, f, es) :: r => if bytes_eqb name n then (n, f, es ++ [e]) :: r else (n, f, es) :: add_waiter r name fail_at e
+  end.
+Definition connected (k : mstate) (c : N) : bool := mem c (m_completed k).     (* dbus_connection_get_is_connected (entry->connection) *)
+
+(* try_send_activation_failure: an error reply for every entry whose requester is STILL CONNECTED; the others are skipped *)
+Definition fail_outputs (k : mstate) (es : list (N * N * N)) : list (N * mout) :=
+  flat_map (fun e => match e with (c, s, _) => if connected k c then [(MON, ActFail c s)] else [] end) es.
+(* bus_activation_service_created + bus_activation_send_pending_auto_activation_messages, same guard *)
+Definition ok_outputs (k : mstate) (es : list (N * N * N)) : list (N * mout) :=
+  flat_map (fun e => match e with (c, s, kind) => if connected k c && (kind =? 0) then [(MON, ActOk c s)] else [] end) es.
+
 Definition n_users (k : mstate) : N := m_baseusers k + nlen (m_completed k).
 Definition n_rules (k : mstate) (c : N) : N := nlen (filter (fun p => fst p =? c) (m_rules k)).
 
@@ -133,6 +165,8 @@ Definition driver_call (m : message) (member iface sig : bytes) : bool :=
 (* RequestName (s name, u flags), AddMatch (s rule), BecomeMonitor ([], 0) at the canonical path *)
 Definition S_AddMatch : bytes := [65; 100; 100; 77; 97; 116; 99; 104].
 Definition S_s : bytes := [115].
+Definition S_StartServiceByName : bytes := [83; 116; 97; 114; 116; 83; 101; 114; 118; 105; 99; 101; 66; 121; 78; 97; 109; 101].
+Definition is_start_service (m : message) : bool := driver_call m S_StartServiceByName DBUS_INTERFACE_DBUS_str S_su.
 Definition is_request_name (m : message) : bool := driver_call m S_RequestName DBUS_INTERFACE_DBUS_str S_su.
 Definition is_add_match (m : message) : bool := driver_call m S_AddMatch DBUS_INTERFACE_DBUS_str S_s.
 Definition is_become_monitor (m : message) : bool :=
@@ -243,8 +277,23 @@ Definition mini_dispatch (k : mstate) (c : N) (active : bool) (m : message) : ms
         if active then
           if is_request_name m then
             let '(names, joined, owner) := acquire (m_names k) (arg_string m) c (negb (N.land (rn_flags m) DBUS_NAME_FLAG_DO_NOT_QUEUE =? 0)) in
-            (set_names k names (if joined then m_acq k ++ [(c, arg_string m)] else m_acq k),
-             seen :: (if owner then [(MON, Noc (arg_string m) 0 c)] else []), VNone)
+            let k1 := set_names k names (if joined then m_acq k ++ [(c, arg_string m)] else m_acq k) in
+            if owner then
+              (* the name appears: a pending activation of it has succeeded *)
+              match find (fun a => bytes_eqb (arg_string m) (fst (fst a))) (m_acts k) with
+              | Some (_, _, es) =>
+                  let pend := fold_left (fun p e => match e with (w, sr, kind) => if connected k w && (kind =? 2) then expect_reply p w c sr else p end) es (m_pend k) in
+                  (set_acts (set_pend k1 pend) (m_clock k) (filter (fun a => negb (bytes_eqb (arg_string m) (fst (fst a)))) (m_acts k)),
+                   seen :: (MON, Noc (arg_string m) 0 c) :: ok_outputs k es, VNone)
+              | None => (k1, [seen; (MON, Noc (arg_string m) 0 c)], VNone)
+              end
+            else (k1, [seen], VNone)
+          else if is_start_service m then
+            (* bus_driver_handle_activate_service -> bus_activation_activate_service *)
+            match queue_of (m_names k) (arg_string m), service_delay (arg_string m) with
+            | [], Some dl => (set_acts k (m_clock k) (add_waiter (m_acts k) (arg_string m) (m_clock k + dl) (c, msg_serial m, 0)), [seen], VNone)
+            | _, _ => (k, [seen], VNone)           (* already running, or ServiceUnknown *)
+            end
           else if is_add_match m then
             (* bus_driver_handle_add_match: the limit is tested before the rule is parsed; rules of the run parse *)
             if m_maxrules k <=? n_rules k c then (k, [seen; (MON, Refused c (msg_serial m))], VNone)
@@ -270,7 +319,14 @@ Definition mini_dispatch (k : mstate) (c : N) (active : bool) (m : message) : ms
         (* routed: only the pending-reply bookkeeping of bus_context_check_security_policy is modelled
            (allow-all policy): a REPLY_SERIAL consumes the matching entry, a method call that expects a reply adds one *)
         match resolve k d with
-        | None => (k, [seen], VNone)            (* NameHasNoOwner / ServiceUnknown goes back to the sender *)
+        | None =>
+            (* nobody owns it: unless NO_AUTO_START is set the bus tries to activate it; without a service file that fails at once *)
+            match (N.land (msg_flags m) DBUS_HEADER_FLAG_NO_AUTO_START =? 0), service_delay d with
+            | true, Some dl =>
+                let kind := if (msg_type m =? DBUS_MESSAGE_TYPE_METHOD_CALL) && (N.land (msg_flags m) DBUS_HEADER_FLAG_NO_REPLY_EXPECTED =? 0) then 2 else 1 in
+                (set_acts k (m_clock k) (add_waiter (m_acts k) d (m_clock k + dl) (c, msg_serial m, kind)), [seen], VNone)
+            | _, _ => (k, [seen], VNone)        (* NameHasNoOwner / ServiceUnknown goes back to the sender *)
+            end
         | Some r =>
             let p1 := match msg_reply_serial m with
                       | Some rs => check_reply (m_pend k) c r rs
@@ -282,6 +338,14 @@ Definition mini_dispatch (k : mstate) (c : N) (active : bool) (m : message) : ms
         end
       else (k, [seen], VClose)                  (* "clients must talk to bus driver first" *)
   end.
+
+(* the core's timers: pending_activation_timed_out / the babysitter reporting that the child has exited
+   (pending_activation_failed -> try_send_activation_failure): every activation whose time has come fails *)
+Definition mini_tick (k : mstate) (d : N) : mstate * list (N * mout) :=
+  let now := m_clock k + d in
+  let due := filter (fun a => snd (fst a) <=? now) (m_acts k) in
+  (set_acts k now (filter (fun a => negb (snd (fst a) <=? now)) (m_acts k)),
+   flat_map (fun a => fail_outputs k (snd a)) due).
 
 (* ---- handshake ---------------------------------------------------------------- *)
 Definition S_EXTERNAL : bytes := [69; 88; 84; 69; 82; 78; 65; 76].
@@ -310,12 +374,12 @@ Definition mini_auth_feed (uid : N) (a : auth) (d : bytes) : auth * bytes * aver
   end.
 
 Definition mini_ops (uid : N) : ops auth mstate mout :=
-  mkOps auth mstate mout auth_init (mini_auth_feed uid) mini_dispatch mini_disconnect.
+  mkOps auth mstate mout auth_init (mini_auth_feed uid) mini_dispatch mini_disconnect mini_tick.
 
 (* [base]: the number the bus will put into the next unique name (4 on a fresh daemon of the
    correspondence run: the monitor, the pair and the observer come first) *)
 (* limits of the correspondence run's configurations are passed in; 4 registered connections are not part of the history *)
-Definition mini_core (base maxuser maxrules : N) : mstate := mkM base [] [] [] [] [] [] [] maxuser maxrules 4.
+Definition mini_core (base maxuser maxrules : N) : mstate := mkM base [] [] [] [] [] [] [] maxuser maxrules 4 0 [].
 Definition mini_core0 (base : N) : mstate := mini_core base 256 512.
 Definition mini_init_at (base : N) : state auth mstate := init (mini_core0 base).
 Definition mini_init : state auth mstate := mini_init_at 4.
